@@ -284,6 +284,13 @@ def run(ctx, R):
                         under_first = True
                 R.ob("C09:clock-read-only-on-first-call:%s@%d" % (name, n["ln"] - arm["ln"]), under_first,
                      "cc = global_clock outside a FirstOrNext::First branch: a retry would forget the generation of its call", where)
+                # and only the predicate's OUTER entry (DynamicElse) may take a new generation: the inner handlers
+                # (DynamicInternalElse, the indexed choice) are also entered in First mode when a call that is already
+                # running walks into the next clause group, and must keep the generation it started with
+                R.ob("C09:generation-taken-at-predicate-entry-only:%s" % name, name == "DynamicElse",
+                     "the %s handler assigns cc = global_clock: a call that backtracks from one clause group into the next one (first argument unbound) would take the "
+                     "current generation there and see clauses asserted, or miss clauses retracted, since it started (p(a,1). p(_,2). p(b,3). with an assertz between the groups)"
+                     % name, where)
             if "k" in n:
                 for key, v in n.items():
                     if isinstance(v, (dict, list)):
